@@ -42,7 +42,10 @@ var (
 	i3DocMods   = []string{"elemhide", "generichide", "jsinject", "document", "urlblock", "genericblock", "content", "extension", "important"}
 	i3Selectors = []string{".banner", "#ad", ".ad-box", ".x", ".sponsor"}
 	i3Rewrites  = []string{"1.2.3.4", "1.2.3.5", "::1", "new.example.net", "NXDOMAIN", "REFUSED", "NOERROR;A;1.2.3.4",
-		"NOERROR;TXT;hello", "NOERROR;MX;10 mail.example.net", "NOERROR;CNAME;new.example.net", "noerror;a;1.2.3.4"}
+		"NOERROR;TXT;hello", "NOERROR;MX;10 mail.example.net", "NOERROR;CNAME;new.example.net", "noerror;a;1.2.3.4",
+		// record types without a value parser: type kept, value nil (an exception with such a value disables
+		// only rewrites of that type, it is not the empty value)
+		"NOERROR;NS;ns1.example.net", "NOERROR;NS;", "noerror;caa;0 issue ca.example.net", "NOERROR;SOA;x", "NOERROR;DNAME;new.example.net"}
 )
 
 func i3Mods(r *rng, pool []string, maxN int) string {
@@ -164,10 +167,9 @@ func i3Build(r *rng, names []string, line func(*rng, []string) string) *i1Scenar
 	}
 	sc.storage = s
 	sc.note = strings.Join(note, " ‖ ")
-	scan := s.NewRuleStorageScanner()
-	for scan.Scan() {
-		f, _ := scan.Rule()
-		switch f := f.(type) {
+	// the rules the requests are aimed at are read list by list, not through the storage scanner under test
+	for _, sr := range mScanLists(ls) {
+		switch f := sr.rule.(type) {
 		case *rules.NetworkRule:
 			sc.nets = append(sc.nets, f)
 			sc.texts = append(sc.texts, f.RuleText)
@@ -239,7 +241,24 @@ func i3Source(r *rng, names []string) string {
 	case 2:
 		return genSourceURL(r)
 	default:
-		return pick(r, []string{"http://", "https://"}) + pick(r, []string{"", "", "www."}) + pick(r, names) + pick(r, []string{"", "/", "/page", "/banner"})
+		host := pick(r, []string{"", "", "www."}) + pick(r, names)
+		path := pick(r, []string{"", "/", "/page", "/banner"})
+		if r.chance(1, 3) {
+			// the referrer as a browser may hand it over: upper-case letters in the host and in the path (the engine
+			// matches referrer-level exceptions against the LOWER-CASED referrer URL)
+			switch r.n(4) {
+			case 0:
+				host = strings.ToUpper(host)
+			case 1:
+				host = mutateCase(r, host)
+			case 2:
+				path = pick(r, []string{"/Page", "/BANNER", "/AD/Img.GIF", "/Ads/Banner.png", "/Banner"})
+			default:
+				host, path = mutateCase(r, host), strings.ToUpper(path)
+			}
+		}
+
+		return pick(r, []string{"http://", "https://"}) + host + path
 	}
 }
 
